@@ -45,6 +45,7 @@
 #include "extensions/qconfig.h"
 
 #define _INCLUDE_DIRECTIVE  "@INCLUDE "
+#define _MAX_INCLUDES       (256)  /* include directives processed per file */
 
 #ifndef _DOXYGEN_SKIP
 #define _VAR        '$'
@@ -68,6 +69,8 @@ static char *_parsestr(qlisttbl_t *tbl, const char *str);
  *
  * @return a pointer of qlisttbl_t in case of successful,
  *  otherwise(file not found) returns NULL
+ * @retval errno ELOOP when more than 256 include directives had to be
+ *  processed, most likely a file that includes itself.
  *
  * @code
  *   # This is "config.conf" file.
@@ -133,10 +136,20 @@ qlisttbl_t *qconfig_parse_file(qlisttbl_t *tbl, const char *filepath,
 
     // process include directive
     char *strp = str;
+    int includes = 0;
 
     while ((strp = strstr(strp, _INCLUDE_DIRECTIVE)) != NULL) {
         if (strp == str || strp[-1] == '\n') {
             char buf[PATH_MAX];
+
+            // included data is scanned for directives too: a file which
+            // includes itself (or a cycle of files) would never end.
+            if (++includes > _MAX_INCLUDES) {
+                DEBUG("Too many %s directives.", _INCLUDE_DIRECTIVE);
+                free(str);
+                errno = ELOOP;
+                return NULL;
+            }
 
             // parse filename
             char *tmpp;
